@@ -78,6 +78,9 @@ class MessageExtractor:
                 code = node.code.code
             elif isinstance(node, parsetree.Expression):
                 code = node.code.code
+                if node.escapes:
+                    # the arguments of filter calls are Python too
+                    code += " | " + node.escapes
             else:
                 continue
 
